@@ -190,12 +190,16 @@ impl SlabRouter {
             KeyClass::Embedding => {
                 let _guard = self.emb_key_lock(key).write();
                 let entity_id = self.index.get_or_create(key);
-                // Extract vector from TensorValue if present
-                if let Some(TensorValue::Vector(vec)) = value.get("_embedding") {
-                    // Try to store in embedding slab; if dimension mismatch, just use metadata
-                    if self.embeddings.set(entity_id, vec).is_err() {
-                        // Dimension mismatch - store in metadata only (this is fine)
-                    }
+                // Extract vector from TensorValue if present and try to store it in the
+                // embedding slab; on a dimension mismatch it lives in the metadata only
+                let in_slab = match value.get("_embedding") {
+                    Some(TensorValue::Vector(vec)) => self.embeddings.set(entity_id, vec).is_ok(),
+                    _ => false,
+                };
+                if !in_slab {
+                    // get() overlays the slab vector on the metadata: a vector left behind
+                    // by an earlier put must not be mixed into this value
+                    self.embeddings.delete(entity_id);
                 }
                 #[cfg(neumann_verif)]
                 crate::verif_hooks::yield_point("store.emb.put");
